@@ -411,6 +411,217 @@ example : (Heap.empty.run demo).2 =
     [.ok (.slice ⟨0, 0, 3, 3⟩), .ok (.slice ⟨0, 0, 1, 3⟩), .ok (.slice ⟨0, 0, 2, 3⟩), .ok (.int 9),
      .err "index out of range", .ok (.int 7), .err "index must be a number"] := by decide
 
+/-! ### A map is Go's map for every history of stores and deletions (refinement, with the invariant "every key once")
+
+The model keeps a map as a list of entries; `assocErase` removes the first entry under a key. That this IS a deletion rests on an invariant - every key
+occurs once - which the empty map has, a literal establishes (`literal_entries_distinct`) and every store and deletion keeps
+(`entriesStep_keeps_distinct`). Under it, any history reads as the same history on a function from keys to optional values
+(`map_history_is_dictionary`): a deleted key is gone, a stored key yields the last value stored, other keys are untouched. (The lift of the invariant to
+every reachable heap of the history model - maps only change through `allocMap` of such a fold, `setAssoc` and `assocErase` - is by inspection of
+`Heap.step`, not a theorem yet.) -/
+
+def keysOf (l : List (V × V)) : List V := l.map (·.1)
+
+/-- the invariant of a map's entry list: every key once -/
+def KeysDistinct (l : List (V × V)) : Prop := (keysOf l).Nodup
+
+theorem lookup_none_of_not_mem (k : V) : ∀ (l : List (V × V)), k ∉ keysOf l → l.lookup k = none
+  | [], _ => rfl
+  | (k', v') :: rest, h => by
+    have hne : k ≠ k' := fun e => h (by simp [keysOf, e])
+    have hr : k ∉ keysOf rest := fun m => h (by simp [keysOf] at m ⊢; exact Or.inr m)
+    have : (k == k') = false := by simpa using hne
+    simp only [List.lookup, this]
+    exact lookup_none_of_not_mem k rest hr
+
+theorem keys_setAssoc_subset (k v : V) : ∀ (l : List (V × V)) (x : V), x ∈ keysOf (setAssoc k v l) → x = k ∨ x ∈ keysOf l
+  | [], x, h => by simp [setAssoc, keysOf] at h; exact Or.inl h
+  | (k', v') :: rest, x, h => by
+    simp only [setAssoc] at h
+    split at h
+    · next heq =>
+      have hk : k' = k := by simpa using heq
+      simp [keysOf] at h ⊢
+      rcases h with h | h
+      · exact Or.inl h
+      · exact Or.inr (Or.inr h)
+    · simp [keysOf] at h ⊢
+      rcases h with h | h
+      · exact Or.inr (Or.inl h)
+      · rcases keys_setAssoc_subset k v rest x (by simpa [keysOf] using h) with h2 | h2
+        · exact Or.inl h2
+        · exact Or.inr (Or.inr (by simpa [keysOf] using h2))
+
+theorem setAssoc_keeps_distinct (k v : V) : ∀ (l : List (V × V)), KeysDistinct l → KeysDistinct (setAssoc k v l)
+  | [], _ => by simp [KeysDistinct, keysOf, setAssoc]
+  | (k', v') :: rest, h => by
+    simp only [KeysDistinct, keysOf, List.map_cons, List.nodup_cons] at h
+    simp only [setAssoc]
+    split
+    · next heq =>
+      have hk : k' = k := by simpa using heq
+      simp only [KeysDistinct, keysOf, List.map_cons, List.nodup_cons]
+      exact ⟨hk ▸ h.1, h.2⟩
+    · next hne =>
+      have hk : k' ≠ k := by simpa using hne
+      simp only [KeysDistinct, keysOf, List.map_cons, List.nodup_cons]
+      refine ⟨?_, setAssoc_keeps_distinct k v rest h.2⟩
+      intro hm
+      rcases keys_setAssoc_subset k v rest k' hm with h1 | h1
+      · exact hk h1
+      · exact h.1 h1
+
+theorem keys_assocErase_subset (k : V) : ∀ (l : List (V × V)) (x : V), x ∈ keysOf (assocErase k l) → x ∈ keysOf l
+  | [], x, h => by simp [assocErase, keysOf] at h
+  | (k', v') :: rest, x, h => by
+    simp only [assocErase] at h
+    split at h
+    · simp [keysOf] at h ⊢; exact Or.inr h
+    · simp [keysOf] at h ⊢
+      rcases h with h | h
+      · exact Or.inl h
+      · exact Or.inr (by simpa [keysOf] using keys_assocErase_subset k rest x (by simpa [keysOf] using h))
+
+theorem assocErase_keeps_distinct (k : V) : ∀ (l : List (V × V)), KeysDistinct l → KeysDistinct (assocErase k l)
+  | [], _ => by simp [KeysDistinct, keysOf, assocErase]
+  | (k', v') :: rest, h => by
+    simp only [KeysDistinct, keysOf, List.map_cons, List.nodup_cons] at h
+    simp only [assocErase]
+    split
+    · exact h.2
+    · simp only [KeysDistinct, keysOf, List.map_cons, List.nodup_cons]
+      exact ⟨fun hm => h.1 (keys_assocErase_subset k rest k' hm), assocErase_keeps_distinct k rest h.2⟩
+
+/-- with every key once, a deleted key is gone -/
+theorem assocErase_removes (k : V) : ∀ (l : List (V × V)), KeysDistinct l → k ∉ keysOf (assocErase k l)
+  | [], _ => by simp [assocErase, keysOf]
+  | (k', v') :: rest, h => by
+    simp only [KeysDistinct, keysOf, List.map_cons, List.nodup_cons] at h
+    simp only [assocErase]
+    split
+    · next heq =>
+      have hk : k' = k := by simpa using heq
+      exact hk ▸ h.1
+    · next hne =>
+      have hk : k' ≠ k := by simpa using hne
+      intro hm
+      simp [keysOf] at hm
+      rcases hm with hm | hm
+      · exact hk hm.symm
+      · exact assocErase_removes k rest h.2 (by simpa [keysOf] using hm)
+
+theorem lookup_assocErase_same (k : V) (l : List (V × V)) (h : KeysDistinct l) : (assocErase k l).lookup k = none :=
+  lookup_none_of_not_mem k _ (assocErase_removes k l h)
+
+theorem lookup_assocErase_other (k k2 : V) (hne : k2 ≠ k) : ∀ (l : List (V × V)), (assocErase k l).lookup k2 = l.lookup k2
+  | [] => rfl
+  | (k', v') :: rest => by
+    simp only [assocErase]
+    split
+    · next heq =>
+      have hk : k' = k := by simpa using heq
+      have : (k2 == k') = false := by simpa [hk] using hne
+      simp [List.lookup, this]
+    · cases hh : (k2 == k') with
+      | true => simp [List.lookup, hh]
+      | false => simp only [List.lookup, hh]; exact lookup_assocErase_other k k2 hne rest
+
+
+theorem lookup_setAssoc_same' (k v : V) : ∀ (l : List (V × V)), (setAssoc k v l).lookup k = some v
+  | [] => by simp [setAssoc, List.lookup]
+  | (k', v') :: rest => by
+    simp only [setAssoc]
+    split
+    · simp [List.lookup]
+    · next hne =>
+      have hk : k' ≠ k := by simpa using hne
+      have : (k == k') = false := by simpa using (Ne.symm hk)
+      simp only [List.lookup, this]
+      exact lookup_setAssoc_same' k v rest
+
+theorem lookup_setAssoc_other' (k v k2 : V) (hne : k2 ≠ k) : ∀ (l : List (V × V)), (setAssoc k v l).lookup k2 = l.lookup k2
+  | [] => by
+    have : (k2 == k) = false := by simpa using hne
+    simp [setAssoc, List.lookup, this]
+  | (k', v') :: rest => by
+    simp only [setAssoc]
+    split
+    · next heq =>
+      have hk : k' = k := by simpa using heq
+      have : (k2 == k) = false := by simpa using hne
+      simp [List.lookup, this, hk]
+    · cases hh : (k2 == k') with
+      | true => simp [List.lookup, hh]
+      | false => simp only [List.lookup, hh]; exact lookup_setAssoc_other' k v k2 hne rest
+
+/-- one step of a history on one map: store under a key, delete a key -/
+inductive MOp where
+  | put (k v : V)
+  | del (k : V)
+
+def entriesStep (l : List (V × V)) : MOp → List (V × V)
+  | .put k v => setAssoc k v l
+  | .del k => assocErase k l
+
+/-- the specification: Go's map as a function from keys to optional values -/
+abbrev MDict := V → Option V
+
+def MDict.step (d : MDict) : MOp → MDict
+  | .put k v => fun x => if x = k then some v else d x
+  | .del k => fun x => if x = k then none else d x
+
+theorem entriesStep_keeps_distinct (l : List (V × V)) (op : MOp) (h : KeysDistinct l) : KeysDistinct (entriesStep l op) := by
+  cases op with
+  | put k v => exact setAssoc_keeps_distinct k v l h
+  | del k => exact assocErase_keeps_distinct k l h
+
+theorem entriesStep_refines (l : List (V × V)) (op : MOp) (h : KeysDistinct l) (x : V) :
+    (entriesStep l op).lookup x = MDict.step (fun x => l.lookup x) op x := by
+  cases op with
+  | put k v =>
+    by_cases hx : x = k
+    · subst hx; simp [entriesStep, MDict.step, lookup_setAssoc_same']
+    · simp [entriesStep, MDict.step, hx, lookup_setAssoc_other' k v x hx]
+  | del k =>
+    by_cases hx : x = k
+    · subst hx; simp [entriesStep, MDict.step, lookup_assocErase_same x l h]
+    · simp [entriesStep, MDict.step, hx, lookup_assocErase_other k x hx]
+
+/-- ANY history of stores and deletions on a map's entry list (every key once - true of the empty map and kept by every step) reads as the same history on
+Go's map: what a key yields afterwards is decided by the last operation on that key. -/
+theorem map_history_is_dictionary (ops : List MOp) : ∀ (l : List (V × V)), KeysDistinct l → ∀ (x : V),
+    KeysDistinct (ops.foldl entriesStep l) ∧ (ops.foldl entriesStep l).lookup x = ops.foldl MDict.step (fun x => l.lookup x) x := by
+  induction ops with
+  | nil => intro l h x; exact ⟨h, rfl⟩
+  | cons op rest ih =>
+    intro l h x
+    simp only [List.foldl]
+    have h1 := entriesStep_keeps_distinct l op h
+    have := ih (entriesStep l op) h1 x
+    refine ⟨this.1, ?_⟩
+    rw [this.2]
+    have : (fun x => (entriesStep l op).lookup x) = MDict.step (fun x => l.lookup x) op := by
+      funext y; exact entriesStep_refines l op h y
+    rw [this]
+
+/-- every map a script can build starts empty: the invariant holds from the start -/
+theorem empty_map_keys_distinct : KeysDistinct ([] : List (V × V)) := by simp [KeysDistinct, keysOf]
+
+theorem fold_setAssoc_distinct (es : List (V × V)) : ∀ (acc : List (V × V)), KeysDistinct acc →
+    KeysDistinct (es.foldl (fun acc kv => setAssoc kv.1 kv.2 acc) acc) := by
+  induction es with
+  | nil => intro acc h; exact h
+  | cons e rest ih => intro acc h; exact ih _ (setAssoc_keeps_distinct e.1 e.2 acc h)
+
+/-- a map literal `{k1: v1, k2: v2, ...}` (keys possibly repeated) builds an entry list with every key once - the only way, with stores and deletions,
+in which the model's heap gets or changes a map (`Heap.allocMap` of this fold, `setAssoc`, `assocErase`) -/
+theorem literal_entries_distinct (es : List (V × V)) : KeysDistinct (es.foldl (fun acc kv => setAssoc kv.1 kv.2 acc) []) :=
+  fold_setAssoc_distinct es [] empty_map_keys_distinct
+
+/-- the invariant matters: with a key twice in the list, a deletion would let the older entry come back -/
+example : (assocErase (.int 1) [(.int 1, .int 10), (.int 1, .int 20)]).lookup (.int 1) = some (.int 20) := by decide
+
+
 /-! ### The container paths of the source (regenerated: Gen/ContFlow)
 
 Every leaf statement of the index, slice, len, member and make expressions, of every assignment target of vm/vmLetExpr.go (variable, member, index into
